@@ -15,7 +15,8 @@ RULE = (
     "(node/child presentation, set, battery, sketch name/version, heartbeat, id request, gateway-ready, stream, "
     "log, discover response, wake-ups) and controller calls, with periodic-save ticks (the fake threading.Timer "
     "callback is fired by the harness) at drawn positions - biased so that a tick falls right before the last "
-    "state change - ended by stop(). Oracle: typed projection before stop() == typed projection of a fresh "
+    "state change - ended by stop(); in a third of the cases a second gateway with its own file lives in the same process "
+    "and its traffic and periodic saves are interleaved. Oracle: typed projection before stop() == typed projection of a fresh "
     "gateway after start_persistence() on the same file. Non-trivial = >= 1 tick strictly between two state "
     "changes and the last state change after the last tick; distinct by (version, format, kind of last change, "
     "history hash)."
@@ -49,7 +50,17 @@ def cases(draw):
         if draw(st.booleans()):
             ops.append({"op": "tick"})
         ops.append({"op": "line", "text": tail})
-    return {"version": version, "ext": draw(st.sampled_from(["json", "pickle"])), "ops": ops, "tail": tail_kind}
+    case = {"version": version, "ext": draw(st.sampled_from(["json", "pickle"])), "ops": ops, "tail": tail_kind}
+    if draw(st.integers(0, 2)) == 0:
+        # a second gateway with its own persistence file lives in the same process (two serial ports, say):
+        # its traffic and its periodic saves are interleaved with the history
+        case["neighbour"] = True
+        for _ in range(draw(st.integers(1, 4))):
+            pos = draw(st.integers(0, len(ops)))
+            ops.insert(pos, draw(st.sampled_from([{"op": "ntick"}, {"op": "ntick"}, {"op": "nline", "text": f"{draw(st.integers(40, 45))};255;0;0;17;2.0"}])))
+        if draw(st.booleans()):
+            ops.append({"op": "ntick"})
+    return case
 
 
 def check_case(case, stats=None):
@@ -57,11 +68,19 @@ def check_case(case, stats=None):
     with persist.Scratch() as tmp, persist.TimerPatch() as fake:
         path = os.path.join(tmp, f"net.{case['ext']}")
         life = persist.Lifetime(fake, version, path)
+        other = persist.Lifetime(fake, version, os.path.join(tmp, f"other.{case['ext']}")) if case.get("neighbour") else None
         changes_since_tick = 0
         tick_between = False
         changes = 0
         prev = drive.typed(life.projection())
         for op in case["ops"]:
+            if op["op"] in ("ntick", "nline"):
+                if other is not None:
+                    if op["op"] == "ntick":
+                        other.tick()
+                    else:
+                        other.driver.line(op["text"])
+                continue
             if op["op"] == "tick":
                 res = life.tick()
                 if isinstance(res, Exception):
@@ -82,6 +101,8 @@ def check_case(case, stats=None):
                 prev = cur
         before = prev
         life.stop()
+        if other is not None:
+            other.stop()
         loaded = persist.fresh_load(version, path)
         after = drive.typed(drive.projection(loaded.gw))
         if after != before:
@@ -94,7 +115,7 @@ def check_case(case, stats=None):
         stats.case(
             common.chash(case) if nt else None,
             {"version": version, "ext": case["ext"], "tail": case["tail"], "ops": case["ops"][-6:], "n_ops": len(case["ops"])},
-            labels=[case["ext"], "tail-" + case["tail"]] + (["tick-between"] if tick_between else []),
+            labels=[case["ext"], "tail-" + case["tail"]] + (["tick-between"] if tick_between else []) + (["neighbour-gateway"] if case.get("neighbour") else []),
         )
 
 
